@@ -130,6 +130,16 @@ func runPausedPair(d *dag.DAG, sel datamodel.Node, tb *tables, inL, inR func(int
 	case id := <-paused:
 		didPause = true
 		if safe {
+			// the responder must first have retired the cancelled response: its executor has returned, so every message of
+			// that response is already in the peer's queue (otherwise a block transaction that was still running when the
+			// cancel arrived could be queued BEHIND the marker's response — seen once in 7000 cases on a loaded machine)
+			rgs := resp.(*gsimpl.GraphSync)
+			for dl := time.Now().Add(10 * time.Second); time.Now().Before(dl); {
+				if _, ok := rgs.PeerState(world.Nodes[0].ID()).IncomingState.RequestStates[id]; !ok {
+					break
+				}
+				time.Sleep(200 * time.Microsecond)
+			}
 			// barrier: the marker's response is queued behind whatever the cancelled response still had in flight
 			p2, e2 := req.Request(ctx, world.Nodes[1].ID(), marker.Root(), dag.AllSelector())
 			collect(ctx, marker, newTables(), p2, e2)
